@@ -8,11 +8,21 @@ transcription of the property statement): a caller below the specified level get
 or 403 (authenticated) and the hub-state digest is unchanged; unknown routes give 404; a path under /api/ is never
 served by a non-API handler.
 
-Two kinds of cases:
+Three kinds of cases:
   table     the live routing table + handler classes + decorator levels of one feature configuration are compared
             with the model's table (routes by their match behaviour on a probe set, methods, AUTH_ENABLED, levels);
   dispatch  a list of requests (method, path, query, caller, body state) is dispatched through the real
             application of one feature configuration and compared with `serve` request by request.
+  dispatch with `bg` (background activity): the same, on a hub that is NOT idle — an admin's PUT /api/ports
+            (held open by a port whose attribute setter waits for its hardware) or PUT /api/devices (held open by
+            a slave that answers slowly) in flight, a view-only consumer's long-poll pending (Session-Id
+            `c09victim`), another consumer's long-poll abandoned (connection closed), a sequence running. Only
+            requests that are NOT to be served (caller below the level, unknown route / method) are dispatched,
+            also with the victim's / the other consumer's Session-Id; oracle: each leaves the state digest (incl.
+            the two global switches, the listening sessions and their pending requests, running sequences, the
+            in-flight requests still unanswered) unchanged; afterwards the hub still does not poll while the
+            restore is in flight, and the victim's long-poll — still pending — is answered by the next permitted
+            event (the restore's full-update / an admin's port-update).
 The corpus is the exhaustive product (28 feature configurations: all on, all off, each flag alone on, each flag
 alone off) x (every URLSpec of the model, enabled or not) x (8 methods) x (4 caller levels) x (2-3 concrete paths);
 generated cases add random feature sets, mutated paths, invalid tokens, the empty-admin-password rule and
@@ -110,6 +120,14 @@ AUTH_EXTRA = ['nohdr1', 'invalid:wrongpw', 'invalid:garbage', 'invalid:basic', '
               'invalid:empty-bearer', 'invalid:wrongpw+e', 'invalid:garbage+e', 'viewonly+e', 'normal+e']
 PW_CONFIGS = ['000', '001', '010', '011', '100', '101', '110', '111']   # admin / normal / view-only password empty
 
+# background activity (what else goes on in the hub while the requests of a case are dispatched)
+BG_KINDS = ['listen', 'dropped', 'sequence', 'restore-ports', 'restore-slaves']
+BG_SETS = [['listen'], ['restore-ports', 'listen'], ['restore-slaves', 'listen'], ['sequence', 'listen', 'dropped'],
+           ['restore-ports'], ['restore-slaves', 'sequence']]
+BG_CALLERS = ['nohdr0', 'invalid:garbage', 'viewonly', 'normal']
+SESSION_IDS = {'ok': 'c09sess', 'bad': '-c09', 'victim': http_c09.VICTIM_SID, 'other': http_c09.OTHER_SID}
+SEQ_DELAY_MS = 60000          # the largest delay PATCH_PORT_SEQUENCE allows
+
 
 def parse_auth(auth: str):
     """auth string of a case -> (credential for the model: nohdr|invalid|viewonly|normal|admin, variant of the
@@ -193,6 +211,173 @@ def instances(regex: str, ids: list[str], tails: list[str], slash: list[bool]) -
         if p not in out:
             out.append(p)
     return out
+
+
+class Background:
+    """What else goes on in the hub while the requests of a case are dispatched. Everything is started through the
+    real application with real tokens of a sufficient level; a kind whose feature is off is simply not active."""
+
+    _events = 0
+
+    def __init__(self, prop, app, feats, kinds) -> None:
+        self.prop = prop
+        self.hub = prop.hub
+        self.app = app
+        self.feats = feats
+        self.kinds = [k for k in BG_KINDS if k in kinds]
+        self.active = []            # kinds that really are going on
+        self.victim = None          # Pending: the view-only consumer's long-poll
+        self.dropped = None
+        self.admin = None           # Pending: the admin's restore
+        self.restore = None
+        self.slow = None
+        self.polled_before = None
+        self.seq_started = None
+
+    def _hdr(self, usr, sid=None, json_body=False):
+        h = {'Authorization': self.hub.auth_header(usr)}
+        if sid:
+            h['Session-Id'] = sid
+        if json_body:
+            h['Content-Type'] = 'application/json'
+        return h
+
+    @staticmethod
+    async def _settle(cond=None, n=400):
+        for _ in range(n):
+            if cond is not None and cond():
+                break
+            await asyncio.sleep(0)
+        if cond is not None and not cond():
+            for _ in range(200):
+                await asyncio.sleep(0.01)
+                if cond():
+                    break
+
+    async def _listen(self, sid):
+        for _ in range(3):          # events queued earlier for this session are served (and dropped) first
+            p = self.hub.start_request(self.app, 'GET', '/api/listen?timeout=3600', self._hdr('viewonly', sid))
+            await self._settle(lambda: p.answered, 50)
+            if not p.answered or p.cap.status != 200:
+                return p
+        return p
+
+    async def _polls(self):
+        """What one pass of the polling loop does now: how often it reads the slow port."""
+        from qtoggleserver.core import main as core_main
+        before = self.slow.polls
+        await core_main.update()
+        return self.slow.polls - before
+
+    async def start_sequence(self):
+        body = json.dumps({'values': [5, 6], 'delays': [SEQ_DELAY_MS, SEQ_DELAY_MS], 'repeat': 0}).encode()
+        r = await self.hub.request(self.app, 'PATCH', '/api/ports/hw1/sequence', self._hdr('admin', json_body=True), body)
+        await self._settle(None, 20)
+        self.seq_started = asyncio.get_event_loop().time()
+        return r.status
+
+    async def keep_stable(self, horizon):
+        """A running sequence writes its next value after SEQ_DELAY_MS: re-arm it when that would fall into the
+        next `horizon` seconds, so that nothing moves by itself while one request is looked at. True if re-armed."""
+        if 'sequence' in self.active and \
+                asyncio.get_event_loop().time() - self.seq_started > SEQ_DELAY_MS / 1000.0 - horizon - 5:
+            await self.start_sequence()
+            return True
+        return False
+
+    async def start(self):
+        hub = self.hub
+        if 'sequence' in self.kinds and self.feats['sequences']:
+            if await self.start_sequence() == 204:
+                self.active.append('sequence')
+        if 'dropped' in self.kinds and self.feats['listen']:
+            p = await self._listen(http_c09.OTHER_SID)
+            if not p.answered:
+                p.drop()                    # the consumer goes away; tornado tells the handler
+                await self._settle(None, 20)
+                self.dropped = p
+                self.active.append('dropped')
+        if 'listen' in self.kinds and self.feats['listen']:
+            p = await self._listen(http_c09.VICTIM_SID)
+            if not p.answered:
+                self.victim = p
+                self.active.append('listen')
+        restore = [k for k in self.kinds if k.startswith('restore-')][:1]
+        if restore and self.feats['backup'] and (restore[0] == 'restore-ports' or self.feats['slaves']):
+            self.slow = await hub.add_slow_port()
+            if restore[0] == 'restore-ports':
+                self.slow.gate.clear()
+                self.slow.set_started.clear()
+                body = [{'id': 'slow1', 'enabled': True, 'display_name': 'c09-restored'}]
+                self.admin = hub.start_request(self.app, 'PUT', '/api/ports', self._hdr('admin', json_body=True),
+                                               json.dumps(body).encode())
+                await self._settle(lambda: self.slow.set_started.is_set() or self.admin.answered)
+            else:
+                http_c09.HOLD_SLOW_HOST[0] = True
+                body = [{'scheme': 'http', 'host': http_c09.SLOW_HOST, 'port': 80, 'path': '/', 'admin_password': 'x'}]
+                self.admin = hub.start_request(self.app, 'PUT', '/api/devices', self._hdr('admin', json_body=True),
+                                               json.dumps(body).encode())
+                await self._settle(lambda: bool(http_c09.HELD) or self.admin.answered)
+            if not self.admin.answered:
+                self.restore = restore[0]
+                self.active.append(self.restore)
+                self.polled_before = await self._polls()
+        return self.active
+
+    def observe(self):
+        """Wire-level part of the state: which of the in-flight requests have been answered."""
+        return json.dumps({'victim-answered': self.victim.answered if self.victim else None,
+                           'restore-answered': self.admin.answered if self.restore else None,
+                           'held-outgoing': len(http_c09.HELD)})
+
+    async def finish(self, refused, where):
+        """End of the scenario: the behavioural side of "no state change" (public entry points only), then let
+        everything in flight come to its end. `refused`: descriptions of the not-served requests dispatched."""
+        hub = self.hub
+        fail = None
+        what = f'{where}: after {len(refused)} request(s) that were not served ({"; ".join(refused[:3])}' + \
+            (' …' if len(refused) > 3 else '') + ')'
+        kind = 'property' if refused else 'correspondence'
+        if self.restore:
+            polled_after = await self._polls()
+            if polled_after != self.polled_before and not self.admin.answered:
+                fail = Failure(kind, f'{what} the polling loop reads the slow port {polled_after} time(s) per pass while '
+                               f'the admin restore is still in flight ({self.polled_before} before them)',
+                               real=polled_after, model=self.polled_before)
+        victim_pending = self.victim is not None and not self.victim.answered
+        if self.victim is not None and not victim_pending and fail is None:
+            fail = Failure(kind, f'{what} the view-only consumer\'s long-poll (Session-Id {http_c09.VICTIM_SID}), pending '
+                           f'before them, has been answered {self.victim.cap.status} {self.victim.cap.body[:60]!r} although '
+                           f'no event occurred', real=self.victim.cap.status)
+        # the next permitted event
+        expect = None
+        if self.restore:
+            if self.restore == 'restore-ports':
+                self.slow.gate.set()
+            else:
+                http_c09.release_held()
+            await self._settle(lambda: self.admin.answered)
+            self.admin_status = self.admin.cap.status
+            if self.admin_status == 204:
+                expect = 'full-update'
+        elif self.victim is not None:
+            Background._events += 1
+            r = await hub.request(self.app, 'PATCH', '/api/ports/hw1', self._hdr('admin', json_body=True),
+                                  json.dumps({'display_name': f'c09-ev-{Background._events}'}).encode())
+            if r.status == 204:
+                expect = 'port-update'
+        if victim_pending:
+            hub.pump()
+            await self._settle(lambda: self.victim.answered)
+            body = self.victim.response().json()
+            types = [e.get('type') for e in body if isinstance(e, dict)] if isinstance(body, list) else None
+            if fail is None and expect is not None and \
+                    (self.victim.cap.status != 200 or types is None or expect not in types):
+                fail = Failure(kind, f'{what} the view-only consumer\'s long-poll (Session-Id {http_c09.VICTIM_SID}) is not '
+                               f'answered by the next permitted event ({expect}): status {self.victim.cap.status}, '
+                               f'events {types}', real=types, model=[expect])
+            self.victim_events = types
+        return fail
 
 
 class C09(Prop):
@@ -326,9 +511,54 @@ class C09(Prop):
                                                  '/api/nothing')
             for m in ('GET', 'POST', 'DELETE') for a in AUTH_KINDS + ['nohdr1', 'invalid:garbage']
             for sid in ('bad', 'none')]})
+        # a hub that is not idle: every route x method x lower-level caller while a restore is in flight / a consumer
+        # is long-polling / a sequence runs; /api/listen with every method, caller and Session-Id (the victim's, the
+        # consumer's who went away, a fresh one, none)
+        for bg in BG_SETS:
+            for name, regex in routes:
+                path = self.paths_for(name, regex)[0]
+                query = self.QUERY.get(name, '')
+                if name == 'listen':
+                    reqs = [[m, path + sl, query, a, 'json', sid] for sl in ('', '/') for m in METHODS
+                            for a in BG_CALLERS + ['invalid:wrongpw', 'invalid:device']
+                            for sid in ('victim', 'other', 'ok', 'none')]
+                else:
+                    reqs = [[m, path, query, a, 'json', 'victim'] for m in ('GET', 'POST', 'PATCH', 'PUT', 'DELETE')
+                            for a in BG_CALLERS]
+                cases.append({'kind': 'dispatch', 'feats': on, 'route': name, 'bg': bg, 'reqs': reqs})
         return cases
 
+    def gen_background(self, rng, tier):
+        feats = {f: rng.random() < 0.6 for f in FLAGS}
+        for f in ('backup', 'listen', 'sequences', 'slaves'):
+            feats[f] = rng.random() < 0.9
+        feats['frontend'] = rng.random() < 0.3
+        bits = bits_of(feats)
+        bg = list(rng.choice(BG_SETS)) if rng.random() < 0.5 else \
+            [k for k in ('listen', 'dropped', 'sequence') if rng.random() < 0.6] + \
+            rng.choice([[], ['restore-ports'], ['restore-slaves']])
+        routes = self.model_routes()
+        sids = ['victim'] * 4 + ['other', 'other', 'ok', 'none', 'bad']
+        callers = BG_CALLERS + ['invalid:wrongpw', 'invalid:basic', 'invalid:nousr', 'invalid:device',
+                                'invalid:garbage+e', 'viewonly+e', 'normal+e', 'invalid:garbage@011']
+        reqs = []
+        for _ in range(rng.randint(1, 4)):
+            name, regex = rng.choice(routes + [r for r in routes if r[0] in ('listen', 'ports', 'slaveDevices')] * 4)
+            paths = self.paths_for(name, regex)
+            path = paths[0] if rng.random() < 0.7 else rng.choice(paths)
+            for m in METHODS:
+                for a in rng.sample(callers, 5):
+                    reqs.append([m, path, self.QUERY.get(name, ''), a, rng.choice(['json'] * 6 + ['badct', 'malformed']),
+                                 rng.choice(sids)])
+        for _ in range(rng.randint(0, 6)):
+            reqs.append([rng.choice(METHODS), rng.choice(['/api/nothing', '/api/listen/x', '/api/ports//value', '/api/']),
+                         '', rng.choice(callers), 'json', rng.choice(sids)])
+        rng.shuffle(reqs)
+        return {'kind': 'dispatch', 'feats': bits, 'route': 'random-bg', 'bg': bg, 'reqs': reqs}
+
     def gen(self, rng, tier):
+        if rng.random() < 0.25:
+            return self.gen_background(rng, tier)
         feats = {f: rng.random() < 0.6 for f in FLAGS}
         if rng.random() < 0.5:
             feats['frontend'] = False
@@ -391,6 +621,8 @@ class C09(Prop):
             return
         reqs = case['reqs']
         n = len(reqs)
+        for k in case.get('bg', []):
+            yield dict(case, bg=[x for x in case['bg'] if x != k])
         for size in (n // 2, n // 4, n // 8, 1):
             if size < 1:
                 continue
@@ -674,14 +906,37 @@ class C09(Prop):
         feats = self._configure(bits)
         app = hub.make_app()
         await hub.ensure_baseline()
+        hub.reset_future_labels()
         tags = set()
         kinds = set()
         observed = []
         fail = None
-        prev = await hub.digest()
+        bg = None
+        refused_sent = []
+        if case.get('bg'):
+            bg = Background(self, app, feats, case['bg'])
+            await bg.start()
+            tags |= {'bg:' + k for k in bg.active} | {'bg-inactive:' + k for k in bg.kinds if k not in bg.active}
+            tags.add('bg-switches-' + ('observed' if None not in hub.switches().values() else 'not-observed'))
+
+        async def digest():
+            d = await hub.digest()
+            if bg is not None:
+                d['in-flight'] = bg.observe()
+            return d
+
+        prev = await digest()
         for rq in case['reqs']:
             method, path, query, auth, body = rq[:5]
-            sid = rq[5] if len(rq) > 5 else 'ok'          # Session-Id header: ok | bad | none
+            sid = rq[5] if len(rq) > 5 else 'ok'          # Session-Id header: ok | bad | none | victim | other
+            if bg is not None:
+                # on a busy hub only requests that are not to be served are dispatched (a served one may legitimately
+                # end what is in flight, e.g. take over the victim's session)
+                _, lv = self.spec_lookup(feats, method, path)
+                if lv is not None and caller_level(auth) >= lv:
+                    continue
+                if await bg.keep_stable(3.5):
+                    prev = await digest()
             cred, _, pw = parse_auth(auth)
             model_auth = f'{cred}@{pw}'
             admin_empty = pw != '000'          # any non-default password configuration
@@ -695,8 +950,8 @@ class C09(Prop):
             fn = mw[2] if mkind == 'refused' else (mw[1] if mkind == 'run' else None)
             if admin_empty:                        # before the token is made: it is signed with the current password
                 hub.set_passwords(empty=pw)
-                prev = await hub.digest()
-            headers = {} if sid == 'none' else {'Session-Id': 'c09sess' if sid == 'ok' else '-c09'}
+                prev = await digest()
+            headers = {} if sid == 'none' else {'Session-Id': SESSION_IDS[sid]}
             headers.update(self._auth_headers(auth))
             payload = b''
             if has_body:
@@ -715,11 +970,11 @@ class C09(Prop):
             uri = path + ('?' + query if query else '')
             resp = await hub.request(app, method, uri, headers, payload)
             await asyncio.sleep(3.0 if fn in SLOW_EFFECT else 0.05)
-            cur = await hub.digest()
+            cur = await digest()
             changed = sorted(k for k in cur if cur[k] != prev.get(k))
             if admin_empty:
                 hub.set_passwords()
-                cur = await hub.digest()
+                cur = await digest()
             prev = cur
             status = resp.status
             mdesc = ' '.join(mw)
@@ -729,7 +984,9 @@ class C09(Prop):
             if fail is not None:
                 continue
             where = (f'{method} {uri} caller={auth} body={body if has_body else "-"} session-id={sid} '
-                     f'features={bits}')
+                     f'features={bits}' + (f' background={"+".join(bg.active) or "none"}' if bg is not None else ''))
+            if bg is not None:
+                refused_sent.append(f'{method} {uri} as {auth} with Session-Id {sid}')
             if not resp.finished or status is None:
                 fail = Failure('correspondence', f'{where}: no response (model: {mdesc})', real=None, model=mdesc)
                 continue
@@ -819,6 +1076,18 @@ class C09(Prop):
         key = f'{bits}:{case.get("route")}:{",".join(sorted(kinds))}' if nontrivial else None
         if case.get('route') == 'random' and nontrivial:
             key = f'{bits}:' + repr(sorted({(o[0], o[1].split("?")[0], o[2]) for o in observed}))[:400]
+        if bg is not None:
+            f2 = await bg.finish(refused_sent, f'features={bits} background={"+".join(bg.active) or "none"}')
+            fail = fail or f2
+            if bg.restore:
+                tags.add(f'bg-restore-answered:{getattr(bg, "admin_status", None)}')
+            if bg.victim is not None:
+                tags.add('bg-victim-answered-by:' + ','.join(sorted(set(getattr(bg, 'victim_events', None) or ['?']))))
+            key = None
+            if bg.active and any(k.startswith('refused') for k in kinds):
+                key = f'bg:{bits}:{"+".join(bg.active)}:' + \
+                    repr(sorted({(o[0], o[1].split("?")[0], o[2], o[3]) for o in observed}))[:400]
+            await hub.ensure_baseline()
         if fail is not None:
             await hub.ensure_baseline()
         return fail, {'tags': sorted(tags), 'key': key, 'observed': observed[:12]}
